@@ -192,8 +192,10 @@ class Result:
                 "stdout": self.stdout[-600:], "logs": [m for _l, _n, m in self.logs][-8:]}
 
 
-def invoke(cwd, argv, today, vcs_shim=None, hook_shim=None, glob_perm=None, now=None):
-    """Run `bumpver <argv>` in-process with cwd as the project directory."""
+def invoke(cwd, argv, today, vcs_shim=None, hook_shim=None, glob_perm=None, now=None, environ=None):
+    """Run `bumpver <argv>` in-process with cwd as the project directory.
+    environ: variables the process inherits for this one invocation (a release started from inside another tool's hook,
+    a CI job that exports things)."""
     setup()
     import click.testing
     import bumpver.cli
@@ -232,10 +234,19 @@ def invoke(cwd, argv, today, vcs_shim=None, hook_shim=None, glob_perm=None, now=
     root = logging.getLogger()
     root.setLevel(logging.DEBUG if nverbose >= 2 else logging.INFO)
     res.before = snapshot(cwd)
+    saved_env = {}
+    for k, v in (environ or {}).items():
+        saved_env[k] = os.environ.get(k)
+        os.environ[k] = v
     try:
         runner = click.testing.CliRunner()
         r = runner.invoke(bumpver.cli.cli, list(argv), catch_exceptions=True)
     finally:
+        for k, v in saved_env.items():
+            if v is None:
+                os.environ.pop(k, None)
+            else:
+                os.environ[k] = v
         pathlib.Path.glob = _state["orig_glob"]
         bumpver.vcs.sp = _state["orig_sp_vcs"]
         bumpver.hooks.sp = _state["orig_sp_hooks"]
